@@ -20,7 +20,7 @@ From ClapModel Require Import Parse.Cmd Parse.Build Parse.Valid Parse.Matcher Pa
 From ClapModel Require Import ParseProofs.Spelling ParseProofs.Dispatch ParseProofs.ErrorSound.
 From ClapModel Require Import ParseProofs.Actions ParseProofs.ActionsLoop ParseProofs.ActionsTop ParseProofs.Chain.
 From ClapModel Require Import Complete.EngineAccept Complete.EngineLevel.
-From ClapModel Require ParseProofs.UnparseProofs.
+From ClapModel Require ParseProofs.UnparseProofs ParseProofs.RelationsComplete.
 From Coq Require Import ZArith Lia List Bool.
 From RecordUpdate Require Import RecordSet.
 Import RecordSetNotations.
@@ -549,15 +549,15 @@ Proof.
 Qed.
 
 (** what is assumed of the candidate and of the level it is offered at ([pcf] = the parser's final level):
-    an option candidate - the typed cluster consists of known flags, every argument carrying the id is an
-    option with well-formed names, no subcommand name starts with [-], the first positional does not want
-    negative numbers; a subcommand candidate - its spelling is UTF-8.  Value candidates (no id) are not the
+    an option candidate - the typed cluster consists of known flags, the argument carrying the id has
+    well-formed names (that it is an option, not a positional, follows: [cand_not_positional]), no subcommand
+    name starts with [-], the first positional does not want negative numbers; a subcommand candidate - its spelling is UTF-8.  Value candidates (no id) are not the
     subject of the acceptance clause. *)
 Definition cand_class (pcf : cmd) (w : bytes) (cd : cand) : Prop :=
   match cd_id cd with
   | Some (IdArg aid) =>
       typed_known pcf w /\ subs_plain pcf /\ negnum_free pcf /\
-      forall a, In a (c_args pcf) -> a_id a = aid -> a_is_positional a = false /\ names_wf a
+      forall a, In a (c_args pcf) -> a_id a = aid -> names_wf a
   | Some (IdCmd n) => utf8_valid (cd_value cd) = true
   | None => False
   end.
@@ -569,6 +569,48 @@ Proof.
   intros Hc Hin Hid. pose proof (value_done_sound tbl w cur pi l Hc cd Hin) as Hs.
   unfold cand_sound in Hs. rewrite Hid in Hs. destruct Hs as [_ [a [_ [_ Hn]]]].
   destruct Hn as [[s [Hv _]]|[lead [s [Hv _]]]]; rewrite Hv; eexists; reflexivity.
+Qed.
+
+(** an option candidate stands for an OPTION of the level (the argument with its id is not a positional): a long
+    spelling needs a long name or aliases (then a long name: [aliased_have_long]), a short spelling a short name or
+    short aliases (on options only: [short_aliases_on_options]); ids are unique ([assert_app]) *)
+Lemma cand_not_positional tbl w cur pi l cd aid pc : lvl18 pc -> c_args pc = c_args cur ->
+  complete_arg tbl w cur pi ValueDone = COk l -> In cd l -> cd_id cd = Some (IdArg aid) ->
+  forall a, In a (c_args pc) -> a_id a = aid -> a_is_positional a = false.
+Proof.
+  intros Hl Hargs Hc Hin Hid.
+  assert (Hsrc : exists a0, In a0 (c_args pc) /\ a_id a0 = aid /\ a_is_positional a0 = false).
+  { cbn [complete_arg] in Hc. destruct (value_done_inv _ _ _ _ _ Hc) as [posv [opts [Hpos [Ho ->]]]].
+    apply finish_incl in Hin. apply in_app_or in Hin. destruct Hin as [Hin|Hin].
+    { exfalso. destruct (utf8_valid w); [|destruct Hin].
+      unfold complete_subcommand in Hin. rewrite dedup_adjacent_in, sort_cands_in, filter_In in Hin.
+      destruct Hin as [Hin _]. destruct (subcommands_in cur cd Hin) as [sc [n [_ [_ [Hi _]]]]]. congruence. }
+    apply in_app_or in Hin. destruct Hin as [Hin|Hin]; [rewrite (Hpos cd Hin) in Hid; discriminate|].
+    assert (Hnn : cd_id cd <> None) by (rewrite Hid; discriminate).
+    assert (Hlong : forall a0 s, In a0 (c_args pc) -> (a_long a0 = Some s \/ In s (map fst (a_aliases a0))) ->
+                    a_is_positional a0 = false).
+    { intros a0 s Ha0 Hs. unfold a_is_positional.
+      assert (Hsome : a_long a0 <> None).
+      { destruct Hs as [Hs|Hs]; [rewrite Hs; discriminate|].
+        apply (l_al pc Hl a0 Ha0). intros E. rewrite E in Hs. destruct Hs. }
+      destruct (a_long a0); [reflexivity|contradiction]. }
+    destruct (complete_option_shape tbl w cur opts cd Ho Hin Hnn) as [[Hx|Hx]|[y [lead [Hy [Hx _]]]]].
+    - destruct (longs_in cur cd Hx) as [a0 [s [Ha0 [-> Hs]]]]. rewrite <- Hargs in Ha0.
+      cbn [cd_id populate_arg_candidate] in Hid. inversion Hid as [Haid].
+      exists a0. split; [exact Ha0|]. split; [reflexivity|]. exact (Hlong a0 s Ha0 Hs).
+    - destruct (hidden_longs_in cur cd Hx) as [a0 [s [Ha0 [-> Hs]]]]. rewrite <- Hargs in Ha0.
+      cbn [cd_id hide populate_arg_candidate] in Hid. inversion Hid as [Haid].
+      exists a0. split; [exact Ha0|]. split; [reflexivity|]. exact (Hlong a0 s Ha0 (or_intror Hs)).
+    - destruct (shorts_in cur y Hy) as [a0 [s [Ha0 [-> Hs]]]]. rewrite <- Hargs in Ha0. subst cd.
+      cbn [cd_id add_prefix populate_arg_candidate] in Hid. inversion Hid as [Haid].
+      exists a0. split; [exact Ha0|]. split; [reflexivity|].
+      destruct Hs as [Hs|Hs].
+      + unfold a_is_positional. rewrite Hs. cbn [is_some negb]. apply andb_false_r.
+      + apply (l_sa pc Hl a0 Ha0). intros E. rewrite E in Hs. destruct Hs. }
+  destruct Hsrc as [a0 [Ha0 [Hid0 Hp0]]]. intros a Ha Haid.
+  pose proof (RelationsComplete.assert_app_find_arg pc (l_app pc Hl) a Ha) as F1.
+  pose proof (RelationsComplete.assert_app_find_arg pc (l_app pc Hl) a0 Ha0) as F2.
+  rewrite Haid in F1. rewrite Hid0 in F2. rewrite F1 in F2. inversion F2; subst. exact Hp0.
 Qed.
 
 (** the final level: the candidate as the last token *)
@@ -583,7 +625,8 @@ Proof.
   - destruct Hcc as [Htk [Hsp [Hnn Hwf]]].
     destruct (option_candidate_step tbl w curf pif l cd aid pcf (l_app pcf Hl) (l_sa pcf Hl) Hsl Hc Hin Hid
                 (typed_known_args pcf curf w (proj1 Hsl) Htk)) as [a [Ha [Haid H]]].
-    destruct (Hwf a Ha Haid) as [Hp Hn].
+    pose proof (Hwf a Ha Haid) as Hn.
+    pose proof (cand_not_positional tbl w curf pif l cd aid pcf Hl (proj1 Hsl) Hc Hin Hid a Ha Haid) as Hp.
     destruct (cand_dash tbl w curf pif l cd aid Hc Hin Hid) as [r Er].
     assert (Hq : quiet_state pcf (cd_value cd) 1 vaf st).
     { split; [rewrite Er; apply dash_no_sub; exact Hsp|]. split; [exact Hfs|].
@@ -769,7 +812,7 @@ Definition cand_class_b (pcf : cmd) (w : bytes) (cd : cand) : bool :=
       match EngineModel.to_short w with Some lead => forallb (has_short pcf) (decode lead) | None => true end
       && subs_plain_b pcf
       && match get_pos pcf 1 with Some p => negb (a_negnum p) | None => true end
-      && forallb (fun a => negb (beq (a_id a) aid) || (negb (a_is_positional a) && names_wf_b a)) (c_args pcf)
+      && forallb (fun a => negb (beq (a_id a) aid) || names_wf_b a) (c_args pcf)
   | Some (IdCmd n) => utf8_valid (cd_value cd)
   | None => false
   end.
@@ -783,8 +826,7 @@ Proof.
   - apply subs_plain_b_ok. exact H2.
   - unfold negnum_free. destruct (get_pos pcf 1); [apply negb_true_iff in H3; exact H3|exact I].
   - intros a Ha Hid. pose proof (forall_args_dec _ _ H4 a Ha) as Hb. cbv beta in Hb.
-    rewrite Hid, beq_refl in Hb. cbn [negb orb] in Hb. apply andb_true_iff in Hb. destruct Hb as [Hp Hn].
-    split; [apply negb_true_iff in Hp; exact Hp|apply names_wf_b_ok; exact Hn].
+    rewrite Hid, beq_refl in Hb. cbn [negb orb] in Hb. apply names_wf_b_ok; exact Hb.
 Qed.
 
 (** * Non-vacuity: a two-level line with every item shape, then an option and a subcommand candidate *)
